@@ -194,3 +194,7 @@ L('filter_cnt', {'r': 'str', 'u': 'str', 'b': 'list[bool]', 'a': 'char', 'k': 'i
 L('class_letter_partition', {'u': 'str', 'a': 'char', 'k': 'int'},
   'cnt(lambda j: And(isin(u[j], "RK"), u[j] == a), 0, k) + cnt(lambda j: And(isin(u[j], "DE"), u[j] == a), 0, k) + '
   'cnt(lambda j: And(Not(isin(u[j], "DERK")), u[j] == a), 0, k) == cnt(lambda j: u[j] == a, 0, k)', ind='k', base='0')
+
+# ----------------------------------------------------------------------------- C20: offsets of the rendered blocks (linear arithmetic with div)
+T('render_off_step', {'k': 'int'},
+  'render_off(k + 1) == render_off(k) + 30 + ite(k % 10 == 0, 1, 0) + ite(k % 50 == 0, 4, 0)', requires=['k >= 0'])
